@@ -103,6 +103,36 @@ fn shapes() -> Vec<Shape> {
             while_(block(vec![print("<@>", vec![]), binop("<", var("i"), int(n))]),
                    block(vec![set("i", binop("+", var("i"), int(1))), t('I')]))]));
     }
+    // initialisers that print nothing: one evaluation per element is observed through aliasing
+    // (write through element 0, then look at all elements)
+    for n in ['2', '3'] {
+        let inits: Vec<(E, E)> = vec![
+            (array(int(2), int(0)), idxset(idx(var("m"), int(0)), int(0), int(9))),
+            (array(int(1), fget(var("go"), "a")), idxset(idx(var("m"), int(0)), int(0), int(9))),
+            (array(int(1), var("v")), idxset(idx(var("m"), int(0)), int(0), int(9))),
+            (array(int(2), array(int(1), int(0))), idxset(idx(idx(var("m"), int(0)), int(1)), int(0), int(9))),
+            (object(None, vec![field("a", int(0))]), fset(idx(var("m"), int(0)), "a", int(9))),
+            (object(None, vec![field("a", var("v"))]), fset(idx(var("m"), int(0)), "a", int(9))),
+            (object(Some(array(int(1), int(0))), vec![]), idxset(idx(var("m"), int(0)), int(0), int(9))),
+            (object(None, vec![field("a", array(int(1), int(0)))]), idxset(fget(idx(var("m"), int(0)), "a"), int(0), int(9))),
+        ];
+        for (init, write) in inits {
+            add('A', block(vec![let_("m", array(t(n), init)), write, var("m")]));
+        }
+    }
+    // a loop condition that is itself an operator expression: both operands on every test
+    for n in 0..=2 {
+        let test = move || block(vec![print("<@>", vec![]), binop("<", var("i"), int(n))]);
+        let conds: Vec<E> = vec![
+            binop("|", test(), t('F')), binop("|", t('F'), test()), binop("&", test(), t('B')), binop("&", t('B'), test()),
+            binop("|", binop("|", t('F'), test()), t('F')), binop("&", binop("|", test(), t('F')), t('B')),
+            binop("==", test(), t('B')), binop("!=", test(), t('F')),
+            mcall(test(), "|", vec![t('F')]), binop("<", t('Z'), binop("-", int(n), var("i"))),
+        ];
+        for c in conds {
+            add('N', block(vec![let_("i", int(0)), while_(c, block(vec![set("i", binop("+", var("i"), int(1))), t('I')]))]));
+        }
+    }
     v
 }
 
